@@ -60,9 +60,10 @@ const (
 	fNsAttr   = "C19-svg-namespaced-attr"
 	fQuirks   = "C19-doctype-quirks-parse"
 	fMustache = "C19-mustache-unescaped"
+	fCtxCR    = "C19-table-fragment-cr"
 )
 
-var allFindings = []string{fQuote, fAmp, fBlank, fDocCase, fTextarea, fPreNL, fRawText, fNsAttr, fQuirks, fMustache}
+var allFindings = []string{fQuote, fAmp, fBlank, fDocCase, fTextarea, fPreNL, fRawText, fNsAttr, fQuirks, fMustache, fCtxCR}
 
 // Case is one template source, split into the parts the statement talks about. The source
 // handed to Format is FrontMatter + Gap + Doctype + Body.
@@ -290,11 +291,17 @@ func reparseAttr(v string) string {
 
 func isBlank(s string) bool { return s != "" && strings.TrimSpace(s) == "" }
 
-var riskyMustache = regexp.MustCompile(`<[A-Za-z/!?]|&[A-Za-z#]`)
+var tagLike = regexp.MustCompile(`<[A-Za-z/!?]`)
+
+// riskyText reports whether s, written into HTML text without escaping, reads back as
+// something else (a tag opens, or a character reference is decoded).
+func riskyText(s string) bool {
+	return tagLike.MatchString(s) || html.UnescapeString(s) != s
+}
 
 func mustacheRisky(text string) bool {
 	for _, m := range mustacheRe.FindAllString(text, -1) {
-		if riskyMustache.MatchString(m) {
+		if riskyText(m) {
 			return true
 		}
 	}
@@ -335,6 +342,9 @@ func regions(c Case) map[string]bool {
 	exact := strings.TrimLeft(c.Doctype+c.Body, " \t\r\n")
 	if (strings.HasPrefix(lead, "<!doctype") && !strings.HasPrefix(exact, "<!DOCTYPE")) || (strings.HasPrefix(lead, "<html") && !strings.HasPrefix(exact, "<html")) {
 		r[fDocCase] = true
+	}
+	if c.Ctx != "" && c.Ctx != "body" && leadTagCR.MatchString(exact) {
+		r[fCtxCR] = true
 	}
 	nodes, err := parseSrc(c.Doctype+c.Body, c.Doc, c.Ctx)
 	if err != nil {
@@ -461,6 +471,7 @@ func splitSource(kind, name, src string) Case {
 	return c
 }
 
+var leadTagCR = regexp.MustCompile(`^<[a-zA-Z]+[\r\f]`)
 var leadTag = regexp.MustCompile(`^<([a-zA-Z][a-zA-Z0-9-]*)[\s/>]`)
 
 // leadingContext is the HTML context in which a fragment starting with a table-scoped element
@@ -733,7 +744,8 @@ func TestProp(t *testing.T) {
 			for _, id := range open {
 				rec.Excluded(id)
 			}
-			rec.Count("corpus-skipped:"+c.Name+" ("+strings.Join(open, ",")+")", 1)
+			rec.Count("corpus-skipped-open-finding", 1)
+			rec.Note("corpus input %s skipped: in the region of open finding(s) %s", c.Name, strings.Join(open, ","))
 			continue
 		}
 		nt, cls := classify(c)
@@ -744,7 +756,7 @@ func TestProp(t *testing.T) {
 		rec.Note("corpus unexpectedly small: %d inputs under %s", len(cs), repoRoot())
 	}
 	rec.Note("corpus: %d inputs (.vuego files and fenced html/vue blocks of docs/*.md), %d checked by this shard", len(cs), done)
-	if shards == 1 {
+	{
 		rec.Exhaustive(fmt.Sprintf("every .vuego file under the repository and every fenced html/vue block of docs/*.md (%d inputs)", len(cs)))
 	}
 
